@@ -16,38 +16,59 @@
 (*    (the code after the repair) apply first makes p the owner of its     *)
 (*    items.                                                               *)
 (*                                                                         *)
-(* Item kinds:  "set"  sets state index := "win" if the rule is a windows  *)
-(*                     rule (rule condition)                               *)
-(*              "gate" marks the rule if state index = "win" (state        *)
-(*                     condition)                                          *)
-(* A conversion result is <<state index seen by the backend, marked?>>.    *)
-(*                                                                         *)
-(* Objects: pipelines are numbered; 1 = class-level backend pipeline,      *)
-(* 2, 3 = user pipelines (2 may be shared by both backends), sums are      *)
-(* allocated from 4 on.                                                    *)
+(* Item kinds:  "set"    sets state index := "win" if the rule is a windows  *)
+(*                       rule (rule condition)                               *)
+(*              "gate"   marks the rule if state index = "win" (state        *)
+(*                       condition)                                          *)
+(*              "map"    renames field A to mappedA and records the target   *)
+(*                       in the OWNER's per-rule field-mapping tracking      *)
+(*              "strict" fails the rule unless its field is a recorded       *)
+(*                       mapping target of the OWNER's tracking              *)
+(*              "tmpl"   adds a condition built from its template and the    *)
+(*                       rule's product; the template is item-local storage  *)
+(*                       that the item must not overwrite                    *)
+(* A conversion result is <<backend, state index seen by the backend,        *)
+(* marked?, failed?, product put into the template ("none" if no tmpl item   *)
+(* ran)>>.                                                                   *)
+(*                                                                           *)
+(* Per-rule state of a pipeline object: state index, field-mapping tracking  *)
+(* (does it record mappedA as a target).  apply() resets both (ResetTracking *)
+(* = FALSE: the tracking survives, as with a reset that keeps the reverse    *)
+(* mapping).  ItemWritesBack = TRUE: tmpl stores the instantiated template.  *)
+(*                                                                           *)
+(* Objects: pipelines are numbered; 1 = class-level backend pipeline,        *)
+(* 2, 3 = user pipelines (2 may be shared by both backends), sums are        *)
+(* allocated from 4 on.                                                      *)
 (***************************************************************************)
 EXTENDS Integers, Sequences, FiniteSets, TLC
 
-CONSTANT ReownAtApply
+CONSTANTS ReownAtApply, ResetTracking, ItemWritesBack
 Backends == {"A", "B"}
-Rules == {"win", "lin"}
+Rules == {"win", "lin", "direct"}         \* direct: a linux rule that uses the field name mappedA itself
 NoPipe == 0
+RuleWin(r) == r = "win"
+Product(r) == IF r = "win" THEN "win" ELSE "lin"
+FieldOf(r) == IF r = "direct" THEN "mappedA" ELSE "A"
 
 \* static item table: item id -> kind ; static initial pipelines
-ItemKind == <<"set", "gate", "set", "gate">>       \* items 1,2 (class pipeline), 3,4 (user pipeline 2)
-InitItems == <<(<<1, 2>>), (<<3, 4>>), (<<>>)>>     \* pipelines 1, 2, 3 (3 = empty user pipeline)
+ItemKind == <<"set", "gate", "map", "strict", "set", "gate", "tmpl">>   \* 1-4 class pipeline, 5-7 user pipeline 2
+NItems == Len(ItemKind)
+InitItems == <<(<<1, 2, 3, 4>>), (<<5, 6, 7>>), (<<>>)>>     \* pipelines 1, 2, 3 (3 = empty user pipeline)
 MaxPipes == 12
 
 \* st == [items (pipe -> Seq(item)), owner (item -> pipe), state (pipe -> "default"|"win"),
+\*        track (pipe -> BOOLEAN), istore (item -> "tpl" | product),
 \*        user (backend -> pipe), last (backend -> pipe), npipes, out]
 OInit(userA, userB) ==
     [items |-> [p \in 1..MaxPipes |-> IF p <= 3 THEN InitItems[p] ELSE <<>>],
-     owner |-> [i \in 1..4 |-> IF i <= 2 THEN 1 ELSE 2],
+     owner |-> [i \in 1..NItems |-> IF i <= 4 THEN 1 ELSE 2],
      state |-> [p \in 1..MaxPipes |-> "default"],
+     track |-> [p \in 1..MaxPipes |-> FALSE],
+     istore |-> [i \in 1..NItems |-> "tpl"],
      user |-> [b \in Backends |-> IF b = "A" THEN userA ELSE userB],
      last |-> [b \in Backends |-> NoPipe],
      npipes |-> 3,
-     out |-> <<"none", "none", FALSE>>]
+     out |-> <<"none", "none", FALSE, FALSE, "none">>]
 
 \* p + q : new object, items concatenated, both operands' items re-owned by the result
 OAdd(st, p, q) ==
@@ -55,7 +76,7 @@ OAdd(st, p, q) ==
         its == st.items[p] \o st.items[q]
     IN  [st EXCEPT !.npipes = n,
                    !.items[n] = its,
-                   !.owner = [i \in 1..4 |-> IF \E k \in 1..Len(its) : its[k] = i THEN n ELSE st.owner[i]]]
+                   !.owner = [i \in 1..NItems |-> IF \E k \in 1..Len(its) : its[k] = i THEN n ELSE st.owner[i]]]
 
 \* backend initialisation: class pipeline + user pipeline (+ empty format pipeline)
 OInitBackend(st, b) ==
@@ -65,25 +86,31 @@ OInitBackend(st, b) ==
 OApply(st, b, r) ==
     LET p == st.last[b]
         own0 == IF ReownAtApply
-                THEN [i \in 1..4 |-> IF \E k \in 1..Len(st.items[p]) : st.items[p][k] = i THEN p ELSE st.owner[i]]
+                THEN [i \in 1..NItems |-> IF \E k \in 1..Len(st.items[p]) : st.items[p][k] = i THEN p ELSE st.owner[i]]
                 ELSE st.owner
-        RECURSIVE Run(_, _, _)
-        Run(k, state, marked) ==
-            IF k > Len(st.items[p]) THEN [state |-> state, marked |-> marked]
-            ELSE LET i == st.items[p][k]
-                     o == own0[i]
-                 IN  IF ItemKind[i] = "set"
-                     THEN Run(k + 1, IF r = "win" THEN [state EXCEPT ![o] = "win"] ELSE state, marked)
-                     ELSE Run(k + 1, state, marked \/ state[o] = "win")
-        res == Run(1, [st.state EXCEPT ![p] = "default"], FALSE)
-    IN  [st EXCEPT !.owner = own0, !.state = res.state,
-                   !.out = <<b, res.state[p], res.marked>>]
+        Step(acc, i) ==
+            LET o == own0[i] IN
+            IF acc.failed THEN acc      \* a failing item ends the run
+            ELSE CASE ItemKind[i] = "set" -> IF RuleWin(r) THEN [acc EXCEPT !.state[o] = "win"] ELSE acc
+                   [] ItemKind[i] = "gate" -> [acc EXCEPT !.marked = @ \/ acc.state[o] = "win"]
+                   [] ItemKind[i] = "map" -> IF acc.field = "A" THEN [acc EXCEPT !.field = "mappedA", !.track[o] = TRUE] ELSE acc
+                   [] ItemKind[i] = "strict" -> IF acc.field = "A" \/ ~acc.track[o] THEN [acc EXCEPT !.failed = TRUE] ELSE acc
+                   [] OTHER -> LET v == IF acc.istore[i] = "tpl" THEN Product(r) ELSE acc.istore[i]
+                               IN  [acc EXCEPT !.tmpl = v, !.istore[i] = IF ItemWritesBack THEN v ELSE @]
+        RECURSIVE Run(_, _)
+        Run(k, acc) == IF k > Len(st.items[p]) THEN acc ELSE Run(k + 1, Step(acc, st.items[p][k]))
+        res == Run(1, [state |-> [st.state EXCEPT ![p] = "default"],
+                       track |-> IF ResetTracking THEN [st.track EXCEPT ![p] = FALSE] ELSE st.track,
+                       istore |-> st.istore, field |-> FieldOf(r), marked |-> FALSE, failed |-> FALSE, tmpl |-> "none"])
+    IN  [st EXCEPT !.owner = own0, !.state = res.state, !.track = res.track, !.istore = res.istore,
+                   !.out = IF res.failed THEN <<b, "none", FALSE, TRUE, "none">>
+                           ELSE <<b, res.state[p], res.marked, FALSE, res.tmpl>>]
 
 OCanConvert(st, b) == st.last[b] # NoPipe /\ st.npipes < MaxPipes - 2
 
 \* ---- Ideal: what a conversion must yield, whatever happened before -------------------
 \* (fresh objects: class pipeline + the backend's user pipeline, applied once)
 FreshResult(userPipe, b, r) ==
-    LET nItems == Len(InitItems[1]) + Len(InitItems[userPipe])    \* "set" then "gate" per pipeline
-    IN  <<b, IF r = "win" THEN "win" ELSE "default", r = "win">>
+    IF r = "direct" THEN <<b, "none", FALSE, TRUE, "none">>     \* mappedA is no mapping target of THIS rule
+    ELSE <<b, IF r = "win" THEN "win" ELSE "default", r = "win", FALSE, IF userPipe = 2 THEN Product(r) ELSE "none">>
 =============================================================================
